@@ -53,9 +53,11 @@ def macroParts (mn : String) (ps : List α) : Option (List (Part α)) :=
             ("p", planeNP h (v.add h), 1), ("p", planeNP h v, -1)]
   | "trc", [vx, vy, vz, hx, hy, hz, r0, r1] =>
       let v : V3 α := ⟨vx, vy, vz⟩; let h : V3 α := ⟨hx, hy, hz⟩
+      let hl := Transc.sqrt h.norm2
+      -- `rad0 / (rad0 - rad1)` and `… / mag(height)`: Python raises ZeroDivisionError
+      if r0 - r1 == 0 || hl == 0 then none else
       let d := r0 / (r0 - r1)
       let apex := v.add (V3.smul d h)
-      let hl := Transc.sqrt h.norm2
       let tanA := fabs (r1 - r0) / hl
       let u := V3.smul (1 / hl) h
       some [("k", [apex.x, apex.y, apex.z, tanA, u.x, u.y, u.z], 1), ("p", planeNP h (v.add h), 1),
